@@ -1,7 +1,108 @@
 import Driver.Common
+import Driver.C05
+/-
+C17 driver: the rolling-appender case format of `Driver/C05.lean` with an on-start-up trigger
+and a dense pre-existing window. The specification is the statement as a function: the first
+append of every appender rolls iff the file that exists at that moment has at least `min_size`
+bytes — the old content becomes the newest archive (`Spec.rotateWindow`), the record starts a
+fresh file; every other append just extends the active file; nothing else ever changes. It is
+compared with the directory the real code produced after every operation.
+-/
 namespace Driver.C17
-open Driver
+open Log4rs.Proto Log4rs.Rolling Driver Driver.C05
+open Driver.C04 (recBytes hex)
 
-def handle : Handler := fun _ _ => badCase "unimplemented"
+structure Expect where
+  window : List Bytes        -- newest first, slot base+i
+  active : Bytes
+  first : Bool
+
+/-- pre-existing archives inside the window, newest first (the generator makes them dense from base) -/
+def window0 (c : Case) : List Bytes :=
+  let (b, n) := c.window
+  (List.range n).filterMap (fun j => (c.preArch.find? (fun e => e.1 = b + j)).map (fun e => preArchBytes e.1 e.2))
+
+def bystanders (c : Case) : List (Log4rs.Roller.Path × Bytes) :=
+  let (b, n) := c.window
+  (c.preArch.filter (fun e => ¬ (b ≤ e.1 ∧ e.1 < b + n))).map (fun e => (c.archName e.1, preArchBytes e.1 e.2))
+
+def renderExpect (c : Case) (x : Expect) : String :=
+  let (b, _) := c.window
+  renderSnap (bystanders c ++ (List.range x.window.length).filterMap (fun i => x.window[i]?.map (fun w => (c.archName (b + i), w))) ++
+    [(activePath, x.active)])
+
+def stepExpect (c : Case) (minSize : Nat) (x : Expect) (op : OpSpec) : Expect :=
+  match op.op, op.rec? with
+  | .append _ _, some r =>
+    if x.first ∧ x.active.length ≥ minSize then
+      { window := Spec.rotateWindow c.window.2 x.window x.active, active := recBytes r.chunks, first := false }
+    else { x with active := x.active ++ recBytes r.chunks, first := false }
+  | .restart, _ => { x with active := if c.appendMode then x.active else [], first := true }
+  | _, _ => x
+
+def specGo (c : Case) (minSize : Nat) : Nat → Expect → List OpSpec → List ObsEntry → Option String
+  | _, _, [], [] => none
+  | k, x, op :: ops, e :: es =>
+    let x' := stepExpect c minSize x op
+    let rolledNow := x.first ∧ x.active.length ≥ minSize ∧ op.rec?.isSome
+    if e.res = "PANIC" then some ("panic at op " ++ toString k)
+    else if op.rec?.isSome ∧ e.res ≠ "ok" then some ("append failed at op " ++ toString k)
+    else if e.snapS ≠ renderExpect c x' then
+      some ((if rolledNow then "first record: old content is not the newest archive / record not alone in a fresh file"
+             else if x.first ∧ op.rec?.isSome then "first record rolled although the file was smaller than min_size (or lost data)"
+             else "later operation changed more than appending the record") ++ " at op " ++ toString k)
+    else specGo c minSize (k + 1) x' ops es
+  | k, _, _, _ => some ("observation arity at op " ++ toString k)
+
+def expect0 (c : Case) : Expect :=
+  { window := window0 c, active := if c.appendMode then (c.preActive.map preActiveBytes).getD [] else [], first := true }
+
+def handleSeq (cas obs : List String) : Answer :=
+  withSeq cas obs fun c ops tr es =>
+    match c.trig with
+    | .startup minSize =>
+      let model := encList "," (tr.map renderEntry)
+      let x0 := expect0 c
+      let spec := match es with
+        | [] => "FAIL:empty observation;sig=" ++ c.sig "C17"
+        | e0 :: rest =>
+          if e0.snapS ≠ renderExpect c x0 then "FAIL:directory after build;sig=" ++ c.sig "C17" ++ "-open"
+          else match specGo c minSize 0 x0 ops rest with
+            | none => "ok"
+            | some why => "FAIL:" ++ why ++ ";sig=" ++ c.sig "C17"
+      let sz := x0.active.length
+      let tags := modelTags c ops tr ++ ["min-" ++ toString minSize] ++
+        [if sz + 1 = minSize then "size=min-1" else if sz = minSize then "size=min" else if sz = minSize + 1 then "size=min+1"
+         else if sz < minSize then "size<min" else "size>min"]
+      { model, spec, tags := if ops.isEmpty then "trivial" :: tags else "seq" :: tags }
+    | _ => badCase "C17 needs an on-start-up trigger"
+
+def handleConc (cas obs : List String) : Answer :=
+  withConc cas obs fun cc =>
+    match cc.c.trig with
+    | .startup minSize =>
+      let c := cc.c
+      let x0 := expect0 c
+      let rolls := x0.active.length ≥ minSize
+      let total := (cc.threads.map List.length).sum
+      -- expected directory apart from the active file
+      let x1 : Expect := if rolls ∧ total > 0 then { x0 with window := Spec.rotateWindow c.window.2 x0.window x0.active, active := [] } else x0
+      let initial := x1.active
+      let active := (cc.snap.get? activePath).getD []
+      let othersOk : Bool :=
+        renderSnap (cc.snap.filter (fun e => e.1 ≠ activePath) ++ [(activePath, [])]) == renderExpect c { x1 with active := [] }
+      let allAcked := (cc.threads.zip cc.acks).all (fun (t, ids) => t.map (·.id) == ids)
+      let ok := allAcked && othersOk && Spec.isMergeOfWhole initial cc.acked active
+      { model := if ok then cc.acksS ++ "!" ++ cc.snapS else cc.serial,
+        spec := if ok then "ok" else
+          "FAIL:simultaneous first appends: not exactly one rotation of the old content with every record whole after it;sig=" ++ c.sig "C17" ++ "-conc",
+        tags := cc.tags ++ [if rolls then "rolls" else "no-roll"] }
+    | _ => badCase "C17 needs an on-start-up trigger"
+
+def handle : Handler := fun cas obs =>
+  match cas with
+  | "seq" :: _ => handleSeq cas obs
+  | "conc" :: _ => handleConc cas obs
+  | _ => badCase "kind"
 
 end Driver.C17
